@@ -162,6 +162,14 @@ fn gen(ctx: &GenCtx, i: u64, prop: &str) -> Option<Run> {
         _ => "a".to_string(),
     };
     let key_b: String = if r.chance(1, 5) { format!("{}😀{}", "b".repeat(62), "b".repeat(8)) } else { "b".to_string() };
+    // one run in ten: two DIFFERENT keys that collide under a popular non-cryptographic hash (FNV-1a 32,
+    // Java hashCode, CRC-32, djb2): they are two claims, not a repeated one
+    let (key_a, key_b) = if r.chance(1, 10) {
+        let (a, b) = *r.pick(&[("costarring", "liquid"), ("declinate", "macallums"), ("altarage", "zinke"), ("Aa", "BB"), ("AaAa", "BBBB"), ("plumless", "buckeroo"), ("hetairas", "mentioner"), ("heliotropes", "neurospora"), ("depravement", "serafins"), ("stylist", "subgenera"), ("playwright", "snush")]);
+        (a.to_string(), b.to_string())
+    } else {
+        (key_a, key_b)
+    };
     let bare = r.chance(1, 6);
     let mut footer: Option<String> = None;
     let mut assertion: Option<String> = None;
